@@ -25,7 +25,9 @@ RULE = (
     "values: every JSON value of nesting depth<=2 over 10 leaves (null, booleans, 0, -1, 2^64-1, 1.5, '', 'a', U+2028) with arrays/objects of "
     "<=2 entries (keys 'k', U+00E9, every order), every value of depth<=3 over 3 leaves (quick: every 2nd), directed boundary "
     "values (every C0 control, U+007F, U+0085, U+2028/2029, BMP boundaries, astral characters as string and as key; the 64-bit "
-    "integer edges; -0.0, 1e308, denormals; empty containers; depth 60; width 300) and seeded deep values; each value is dumped "
+    "integer edges; -0.0, 1e308, denormals; empty containers; depth 60; width 300; nesting depth 255/256/700 and 1023/1024/1025/1100/1400 "
+    "(arrays, objects, alternating, at the top and below a prefix; only depths the unmodified library handles in both configurations, "
+    "measured at run time); 1 MiB strings and keys; 100k-member arrays and objects) and seeded deep values; each value is dumped "
     "by the real fast_json under both configurations, both texts are loaded under both configurations, and all of it is compared "
     "with the Lean model; non-trivial = distinct value that is not a bare null/boolean"
 )
@@ -71,11 +73,30 @@ class Codec(Suite):
     def __init__(self):
         self.styles: dict = {}
         self.pinned_hits: dict = {}
+        self.limit_note = None
 
     def cases(self, ctx, budget):
         out = []
         for tag, v in J.directed():
             out.append({"g": "directed/" + tag, "v": v})
+        # where the two backends' own limits differ (nesting depth, length, width)
+        lim = self.measure_limits()
+        margin = 50
+        # the bound comes from the stdlib json module of the worker's interpreter, NOT from the library
+        # under test (whose own limit is only reported): up to there a JSON codec can work in this
+        # process, and the unmodified library does under both configurations thanks to its fall-back
+        max_depth = min(min(l["interpreter"].values()) for l in lim.values()) - margin
+        self.limit_note = (
+            f"nesting limits measured at run time (deepest single-member chain for which dumps+loads work): stdlib json of the "
+            f"interpreter {lim['s']['interpreter']}; fast_json with orjson importable {lim['o']['library']}, with orjson absent "
+            f"{lim['s']['library']}; duplicate keys: orjson importable '{lim['o'].get('duplicate_key')}', absent "
+            f"'{lim['s'].get('duplicate_key')}'; directed deep values use depths {[d for d in J.DEPTHS if d <= max_depth]} of "
+            f"{J.DEPTHS} (<= interpreter limit - {margin}; beyond it every Python JSON codec in this process raises "
+            f"RecursionError, so nothing is demanded); very deep / 1 MiB / 100k-member values are checked by the property "
+            f"oracle only (no model line)"
+        )
+        for tag, v in J.directed_limits(max_depth):
+            out.append({"g": "limits/" + tag, "v": v})
         d2 = J.exhaustive(LEAVES_D2, KEYS, 2, 2)
         out += [{"g": "exhaustive/depth<=2", "v": v} for v in d2]
         d3 = [v for v in J.exhaustive(LEAVES_D3, KEYS, 3, 2) if J.depth(v) == 3]
@@ -93,6 +114,9 @@ class Codec(Suite):
             outside = 0.15 if i % 10 == 0 else 0.0
             out.append({"g": "seeded/outside" if outside else "seeded", "v": J.rand_value(rng, deep, outside, rng.choice([2, 3, 5]))})
         return out
+
+    def measure_limits(self):
+        return {"o": J.worker(block_orjson=False).call({"op": "limits"}), "s": J.worker(block_orjson=True).call({"op": "limits"})}
 
     # -- implementation -------------------------------------------------------------------
     def impl_batch(self, cases):
@@ -132,6 +156,8 @@ class Codec(Suite):
         o = getattr(self, "_obs", {}).get(id(case))
         if tok is None or o is None:
             return None
+        if J.is_compact(case["v"]):
+            return None  # very deep / long / wide: property oracle only
         try:
             vo = J.with_tokens(case["v"], tok["o"])
             vs = J.with_tokens(case["v"], tok["s"])
@@ -234,6 +260,8 @@ def suites():
 
 def extra(ctx, tier):
     """note which instance of the model's encoder family the code was seen to use"""
+    if _codec.limit_note:
+        ctx.notes.append(_codec.limit_note)
     for tag, name in (("o", "orjson importable, integers within 64 bits"), ("o/beyond64", "orjson importable, an integer beyond 64 bits"),
                       ("s", "orjson absent, integers within 64 bits"), ("s/beyond64", "orjson absent, an integer beyond 64 bits")):
         st = dict(_codec.styles.get(tag, {}))
